@@ -100,7 +100,7 @@ def concretise(adoc, rnd, np_):
     sitef = {}
     siteline = {}
     for s in sites:
-        lon = (rnd.choice("+-"), rnd.randint(0, 179), rnd.randint(0, 59), rnd.randint(0, 599) / 10.0)
+        lon = ("+", rnd.choice([0, rnd.randint(0, 359)]), rnd.randint(0, 59), rnd.randint(0, 599) / 10.0)   # I3: 0..359 east
         lat = (rnd.choice("+-"), rnd.choice([0, 0, rnd.randint(0, 89)]), rnd.randint(0, 59), rnd.randint(0, 599) / 10.0)
         h = rnd.choice([rnd.randint(-4000, 88000) / 10.0, rnd.randint(-99, 99) / 10.0, rnd.randint(10000, 88000) / 10.0])
         pt = rnd.choice([" A", " A", " B"])
@@ -164,7 +164,7 @@ def concretise(adoc, rnd, np_):
                 x = 0.0
             row.append(e21(x).strip())
         cov.append(row)
-    comm = None
+    comm = []
     if adoc["comm"]:
         comm = ["* generated by the C18 harness", " station list edited; see the log", "* %d parameters" % n]
     return {"hdr": hdr, "codes": [codes[s] for s in sites], "sites": sites, "sitef": [sitef[s] for s in sites],
@@ -194,7 +194,7 @@ def render(adoc, txt):
     lines = ["%%=SNX %s %s %s %s %s %s %s %05d %s %s" % (h["ver"], h["ag"], h["ctime"], h["dag"], h["start"], h["end"],
                                                           h["tech"], n, h["cons"], h["sol"])]
     lines.append(SEP)
-    if txt["comm"] is not None:
+    if adoc["comm"]:
         lines.append("+FILE/COMMENT")
         lines += txt["comm"]
         lines.append("-FILE/COMMENT")
